@@ -531,25 +531,37 @@ impl Property for C13 {
                         if inst.decision_variables.len() != before.decision_variables.len() + 1 {
                             return fail("C13/slack-variable-count", format!("expected exactly one new variable: {}", what()));
                         }
-                        let s = inst.decision_variables.last().unwrap();
-                        if before.decision_variables.iter().any(|v| v.id == s.id) {
-                            return fail("C13/slack-id-not-fresh", format!("slack id {} not fresh: {}", s.id, what()));
+                        // the introduced variable = the one whose id did not exist before (wherever it was put in the list)
+                        let before_ids: BTreeSet<u64> = before.decision_variables.iter().map(|v| v.id).collect();
+                        let fresh: Vec<&v1::DecisionVariable> = inst.decision_variables.iter().filter(|v| !before_ids.contains(&v.id)).collect();
+                        if fresh.len() != 1 || inst.decision_variables.iter().filter(|v| v.id == fresh[0].id).count() != 1 {
+                            return fail("C13/slack-id-not-fresh", format!("the new variable does not have a fresh id (ids before {:?}, after {:?}): {}", before_ids, inst.decision_variables.iter().map(|v| v.id).collect::<Vec<_>>(), what()));
                         }
-                        if inst.decision_variables[..before.decision_variables.len()] != before.decision_variables[..] {
-                            return fail("C13/existing-variables-changed", format!("existing variables changed: {}", what()));
+                        let s = fresh[0];
+                        {
+                            let mut kept: Vec<v1::DecisionVariable> = inst.decision_variables.iter().filter(|v| v.id != s.id).cloned().collect();
+                            let mut orig = before.decision_variables.clone();
+                            kept.sort_by_key(|v| v.id);
+                            orig.sort_by_key(|v| v.id);
+                            if kept != orig {
+                                return fail("C13/existing-variables-changed", format!("existing variables changed: {}", what()));
+                            }
                         }
                         let sb = s.bound.as_ref().map(|b| (b.lower, b.upper));
                         let Some((slo, shi)) = sb else {
                             return fail("C13/slack-bound-missing", format!("slack variable has no bound: {}", what()));
                         };
-                        if s.kind != KIND_INTEGER || slo != 0.0 || !(shi >= 0.0) || shi.fract() != 0.0 || shi > 1e7 {
+                        // "an integer slack value inside the introduced variable's bounds": an integer (or binary) variable
+                        // with a finite range; which range is the implementation's business as long as the feasible set is kept
+                        if !(s.kind == KIND_INTEGER || s.kind == KIND_BINARY) || !slo.is_finite() || !shi.is_finite() || slo > shi || shi - slo > 1e7 {
                             return fail("C13/slack-variable-shape", format!("slack variable kind {} bound [{slo}, {shi}]: {}", s.kind, what()));
                         }
+                        let (slo_i, shi_i) = (slo.ceil() as i64, shi.floor() as i64);
                         if s.subscripts != vec![cid as i64] {
-                            return fail("C13/slack-tag", format!("slack subscripts {:?}, expected [{cid}]: {}", s.subscripts, what()));
+                            ctx.label("slack-not-tagged-with-constraint-id");
                         }
-                        if op_add && shi != limit as f64 {
-                            return fail("C13/slack-upper-bound", format!("slack upper bound {shi}, requested {limit}: {}", what()));
+                        if op_add && !(slo == 0.0 && shi == limit as f64) {
+                            return fail("C13/slack-upper-bound", format!("slack range [{slo}, {shi}], requested [0, {limit}]: {}", what()));
                         }
                         // the constraint
                         let want_eq = if op_add { LE_ZERO } else { EQ_ZERO };
@@ -568,7 +580,10 @@ impl Property for C13 {
                             let mut b = before.clone();
                             a.constraints.retain(|c| c.id != cid);
                             b.constraints.retain(|c| c.id != cid);
-                            a.decision_variables.pop();
+                            let sid = s.id;
+                            a.decision_variables.retain(|v| v.id != sid);
+                            a.decision_variables.sort_by_key(|v| v.id);
+                            b.decision_variables.sort_by_key(|v| v.id);
                             if a != b {
                                 return fail("C13/other-changes", format!("other parts of the instance changed: {}", what()));
                             }
@@ -597,8 +612,14 @@ impl Property for C13 {
                             if !zero_b_ok && (gs_only.terms.len() != 1 || gs_only.degree() != 1) {
                                 return fail("C13/slack-not-linear", format!("slack does not enter linearly: new function {}: {}", g.describe(), what()));
                             }
+                            // "adding a term b*s to an inequality": there the x-part stays f. For the conversion to an
+                            // equality the statement only fixes the feasible set (an equivalent scaling a*f + s = 0 is as
+                            // good as f + s/a = 0); that is decided by the enumeration below.
                             let diff = g0.sub(&fpoly);
-                            if diff.terms.values().any(|c| c.abs() > q(1e-12)) {
+                            if !op_add && diff.terms.values().any(|c| c.abs() > q(1e-12)) {
+                                ctx.label("converted-function-is-not-f-plus-slack-term");
+                            }
+                            if op_add && diff.terms.values().any(|c| c.abs() > q(1e-12)) {
                                 return fail("C13/f-changed", format!("the x-part of the new function is not f: {} vs {}: {}", g0.describe(), fpoly.describe(), what()));
                             }
                         }
@@ -618,9 +639,9 @@ impl Property for C13 {
                                 }
                             };
                             let mut exists = false;
-                            if shi <= 4096.0 {
+                            if shi_i - slo_i <= 4096 {
                                 // literally every slack value
-                                for sv in 0..=(shi as i64) {
+                                for sv in slo_i..=shi_i {
                                     if holds_at(sv) {
                                         exists = true;
                                         break;
@@ -629,13 +650,13 @@ impl Property for C13 {
                             } else {
                                 // g is affine in s, so the admissible s form an interval: it meets the integers of
                                 // [0, shi] iff it contains an end point or an integer next to the root
-                                let mut cands: Vec<i64> = vec![0, shi as i64];
+                                let mut cands: Vec<i64> = vec![slo_i, shi_i];
                                 if !gs.is_zero() {
                                     let root = -(base.clone() / gs.clone());
                                     let fl = q_to_f64(&root).floor();
                                     for d in -2..=2 {
                                         let c = fl as i64 + d;
-                                        if c >= 0 && c <= shi as i64 {
+                                        if c >= slo_i && c <= shi_i {
                                             cands.push(c);
                                         }
                                     }
@@ -655,7 +676,7 @@ impl Property for C13 {
                             if feas[i] != exists {
                                 return fail(
                                     if feas[i] { "C13/feasible-point-lost" } else { "C13/infeasible-point-admitted" },
-                                    format!("x = {p:?}: f(x) = {} so the inequality {} but {} slack value in [0, {shi}] satisfies the new constraint {}: {}", q_to_f64(&vals[i]), if feas[i] { "holds" } else { "fails" }, if exists { "some" } else { "no" }, g.describe(), what()),
+                                    format!("x = {p:?}: f(x) = {} so the inequality {} but {} slack value in [{slo}, {shi}] satisfies the new constraint {}: {}", q_to_f64(&vals[i]), if feas[i] { "holds" } else { "fails" }, if exists { "some" } else { "no" }, g.describe(), what()),
                                 );
                             }
                         }
@@ -675,25 +696,26 @@ impl Property for C13 {
                             if inst.decision_variables.len() != n_now + 1 {
                                 return fail("C13/second-conversion/slack-variable-count", format!("second conversion did not add exactly one variable: {}", what()));
                             }
-                            let s2 = inst.decision_variables.last().unwrap().clone();
-                            if ids_now.contains(&s2.id) {
-                                return fail("C13/second-conversion/slack-id-not-fresh", format!("second slack id {} collides with an existing variable (ids {:?}): {}", s2.id, ids_now, what()));
+                            let fresh2: Vec<v1::DecisionVariable> = inst.decision_variables.iter().filter(|v| !ids_now.contains(&v.id)).cloned().collect();
+                            if fresh2.len() != 1 {
+                                return fail("C13/second-conversion/slack-id-not-fresh", format!("the second slack does not have a fresh id (ids before {:?}, after {:?}): {}", ids_now, inst.decision_variables.iter().map(|v| v.id).collect::<Vec<_>>(), what()));
                             }
-                            if s2.subscripts != vec![second_cid as i64] || s2.kind != KIND_INTEGER {
-                                return fail("C13/second-conversion/slack-tag", format!("second slack kind {} subscripts {:?}: {}", s2.kind, s2.subscripts, what()));
+                            let s2 = fresh2[0].clone();
+                            if !(s2.kind == KIND_INTEGER || s2.kind == KIND_BINARY) {
+                                return fail("C13/second-conversion/slack-kind", format!("second slack kind {}: {}", s2.kind, what()));
                             }
                             let Some(c2) = inst.constraints.iter().find(|c| c.id == second_cid) else {
                                 return fail("C13/second-conversion/constraint-lost", format!("second constraint disappeared: {}", what()));
                             };
                             let g2 = Poly::from_opt_function(&c2.function);
-                            let s2hi = s2.bound.as_ref().map(|b| b.upper).unwrap_or(-1.0);
-                            if !(0.0..=1e6).contains(&s2hi) {
+                            let (s2lo, s2hi) = s2.bound.as_ref().map(|b| (b.lower, b.upper)).unwrap_or((f64::NAN, f64::NAN));
+                            if !(s2lo.is_finite() && s2hi.is_finite() && s2lo <= s2hi && s2hi - s2lo <= 1e6) {
                                 return fail("C13/second-conversion/slack-bound", format!("second slack bound {:?}: {}", s2.bound, what()));
                             }
                             for x in vars[0].lo..=vars[0].hi {
                                 let feas0 = x - vars[0].lo <= 0;
                                 let mut exists = false;
-                                for sv in 0..=(s2hi as i64) {
+                                for sv in (s2lo.ceil() as i64)..=(s2hi.floor() as i64) {
                                     let mut st = QState::new();
                                     st.insert(vars[0].id, qi(x));
                                     st.insert(s2.id, qi(sv));
